@@ -186,7 +186,9 @@ package dnsserver
 //@ updates cnt, purges, closes
 //@ flag skip frame
 //@ ghostret np str = newPath
-//@ requires h.stats != nil && h.dnsdb != nil && closes[h.dnsdb.dbi] == 0 && !h.dnsdb.destroyable && h.dnsdb.dbi != nil && closes[h.dnsdb.dbi] == ite(h.dnsdb.destroyable && h.dnsdb.refCount == 0, 1, 0)
+// A reload signal can arrive before (or without) a successful Load: h.dnsdb may be nil.
+//@ requires h.stats != nil && (h.dnsdb != nil ==> closes[h.dnsdb.dbi] == 0 && !h.dnsdb.destroyable && h.dnsdb.dbi != nil && closes[h.dnsdb.dbi] == ite(h.dnsdb.destroyable && h.dnsdb.refCount == 0, 1, 0))
+//@ ensures[notloaded] old(h.dnsdb) == nil ==> err != nil && h.dnsdb == nil && purges == old(purges)
 //@ ensures[nopayload] s.Kind == FullReload && s.Payload == "" ==> err != nil && h.dnsdb == old(h.dnsdb) && h.dbConfig.Path == old(h.dbConfig.Path) && purges == old(purges)
 //@ ensures[lock] held(h.reloadMu) == 0
 //@ ensures[purged] h.dnsdb != old(h.dnsdb) || purges != old(purges) || !h.cacheConfig.Enabled || h.lru == nil || h.dbConfig.Path == old(h.dbConfig.Path)
